@@ -311,3 +311,26 @@ Theorem C04_opassign_compile_applies_kernel_to_sink_source :
     exists r f, resolve_cfn c = Some r /\ callee_of o form = Some f /\ compile_model r k args = k f (map strip args).
 Proof. exact oa_compile_applies_kernel_to_sink_source. Qed.
 Print Assumptions C04_opassign_compile_applies_kernel_to_sink_source.
+
+(* F8. the loop nests of the reachable kernels, INTERPRETED: for every operator the extracted macro of x[ix] op= s, x[ix] op= v and
+       x[ix,:] op= s parses to a loop nest whose element accesses, in loop order and for all shapes / index vectors / sources, are
+       exactly the attempt lists this model feeds to run_attempts for that statement form (None = the access panics).  A changed
+       loop bound (ncols -> nrows), a dropped `- 1`, a swapped loop order or index changes the list.
+       Definitions: Proofs/OpAssignKernelSemP.v *)
+From MechV Require Import Proofs.OpAssignKernelSemP.
+Theorem C04_opassign_kernels_make_model_accesses :
+  forall (o site : string) (params : list string) (body : tm),
+    (In (o, "1d_range"%string, site, params, body) oa_kernels ->
+       exists n, parse_kernel body = Some n /\
+         forall (r c : nat) (l : list Z) (e : sx) (vs : list sx),
+           nest_attempts r c l e vs [] n = Some (with_src e (dim_attempts (r * c) (CU l)))) /\
+    (In (o, "1d_range_vec"%string, site, params, body) oa_kernels ->
+       exists n, parse_kernel body = Some n /\
+         forall (r c : nat) (l : list Z) (e : sx) (vs : list sx),
+           nest_attempts r c l e vs [] n = Some (zip_src 0 (dim_attempts (r * c) (CU l)) vs)) /\
+    (In (o, "2d_vector_all"%string, site, params, body) oa_kernels ->
+       exists n, parse_kernel body = Some n /\
+         forall (r c : nat) (l : list Z) (e : sx) (vs : list sx),
+           nest_attempts r c l e vs [] n = Some (with_src e (col_outer r (dim_attempts r (CU l)) (dim_attempts c CA)))).
+Proof. exact extracted_kernels_make_model_accesses. Qed.
+Print Assumptions C04_opassign_kernels_make_model_accesses.
